@@ -364,7 +364,15 @@ impl<F: Write + Seek> Allocator<F> {
         debug_assert!(index <= self.fat.len());
         let fat_entries_per_sector =
             self.sectors.sector_len() / size_of::<u32>();
-        let fat_sector_id = self.difat[index / fat_entries_per_sector];
+        let Some(&fat_sector_id) =
+            self.difat.get(index / fat_entries_per_sector)
+        else {
+            invalid_data!(
+                "DIFAT has only {} FAT sectors, which don't cover sector {}",
+                self.difat.len(),
+                index
+            );
+        };
         let offset_within_sector = 4 * (index % fat_entries_per_sector) as u64;
         let mut sector = self
             .sectors
